@@ -266,6 +266,12 @@ def run(ctx):
                     for a in e["cond"][2]:
                         if a[0] == "const" and a[2].startswith('"'):
                             names.add(a[2].strip('"'))
-    ctx.ob("R4", "builtin-names-agree", names == cell_names and len(names) >= 16, ctx.where(MG),
-           "make_goal accepts %s as built-ins; the dispatcher implements %s" % (sorted(names - cell_names), sorted(cell_names - names))
-           if names != cell_names else "the %d built-in names accepted by make_goal are exactly the dispatcher's cells" % len(names))
+    # every name make_goal turns into a built-in goal has a cell in the dispatcher (else the goal panics when run), and
+    # every comparison functor is among them (else `less_than(a, b)` would be looked up as a user predicate); a cell
+    # the argument-taking constructor does not know (an argument-less built-in) is no concern of this property
+    missing_impl = names - cell_names
+    missing_cmp = set(WANT) - names
+    ctx.ob("R4", "builtin-names-agree", not missing_impl and not missing_cmp and len(names) >= 16, ctx.where(MG),
+           ("make_goal accepts %s as built-ins without a dispatcher cell; comparison functors it does not accept: %s" % (
+               sorted(missing_impl), sorted(missing_cmp))) if (missing_impl or missing_cmp) else
+           "the %d built-in names accepted by make_goal all have dispatcher cells and include the comparison functors" % len(names))
